@@ -1353,3 +1353,57 @@ def m_par_chunks(I, a, t, c):
 @add('rayon::slice::ParallelSlice::par_chunks_exact', 'rayon::slice::ParallelSliceMut::par_chunks_exact_mut')
 def m_par_chunks_exact(I, a, t, c):
     return _M._chunks(I, a, True)
+
+
+
+# ---------------------------------------------------------------------------------------------------- OnceLock / OnceCell / LazyLock, slice::from_ref
+@add('std::sync::OnceLock::new', 'std::sync::OnceLock::<T>::new', 'std::cell::OnceCell::new', 'std::cell::OnceCell::<T>::new')
+def m_once_new(I, a, t, c):
+    return Agg('once', 0, [NONE])
+
+
+@add('std::sync::OnceLock::get_or_init', 'std::sync::OnceLock::<T>::get_or_init', 'std::cell::OnceCell::get_or_init', 'std::cell::OnceCell::<T>::get_or_init')
+def m_once_get_or_init(I, a, t, c):
+    r = a[0]
+    v = I.load(r) if isinstance(r, RefV) else r
+    if isinstance(v, Agg) and v.kind == 'once' and isinstance(r, RefV):
+        if v.fields[0].variant == 0:
+            I.store(r, Agg('once', 0, [some(I.call_closure(a[1], []))]))
+        return RefV(r.cell, r.path + (0, 0))
+    # a `static` whose initial value the facts do not carry: one cell per static, kept on the interpreter
+    store = I.__dict__.setdefault('_once_cells', {})
+    k = repr(v)
+    if k not in store:
+        store[k] = Cell(I.call_closure(a[1], []), 'once-static')
+    return RefV(store[k])
+
+
+@add('std::sync::OnceLock::get', 'std::sync::OnceLock::<T>::get', 'std::cell::OnceCell::get')
+def m_once_get(I, a, t, c):
+    r = a[0]
+    v = I.load(r) if isinstance(r, RefV) else r
+    if isinstance(v, Agg) and v.kind == 'once':
+        return some(RefV(r.cell, r.path + (0, 0))) if v.fields[0].variant == 1 else NONE
+    store = I.__dict__.setdefault('_once_cells', {})
+    k = repr(v)
+    return some(RefV(store[k])) if k in store else NONE
+
+
+@add('std::slice::from_ref', 'core::slice::from_ref')
+def m_slice_from_ref(I, a, t, c):
+    r = a[0]
+    return RefV(Cell(Agg('array', 0, [deref_all(I, r)]), 'from_ref'), (), (0, 1))
+
+
+@add('std::slice::from_mut', 'core::slice::from_mut')
+def m_slice_from_mut(I, a, t, c):
+    raise Unsupported('slice::from_mut (aliasing of the original cell is not modelled)')
+
+
+# ---------------------------------------------------------------------------------------------------- ndarray mapv
+@add('ndarray::impl_methods::<impl ndarray::ArrayBase<S, D>>::mapv')
+def m_nd_mapv(I, a, t, c):
+    n, vals = _nd_or_vals(I, a[0])
+    if n is None:
+        return Agg('array', 0, [I.call_closure(a[1], [x]) for x in vals])
+    return Nd2([[I.call_closure(a[1], [x]) for x in row] for row in n.rows], n.ncols)
